@@ -278,4 +278,282 @@ Section Seek.
           eapply psorted_cons_gt; [exact Hpost|]. unfold pkey. simpl. congruence.
   Qed.
 
+  (* ---------------- a valid (node, index) is a position of the list and conversely ------------- *)
+
+  Lemma zget_nat {A} (l : list A) i a :
+    zget l i = Some a -> exists n, i = Z.of_nat n /\ nth_error l n = Some a.
+  Proof.
+    unfold zget. destruct (i <? 0) eqn:E; [discriminate|]. apply Z.ltb_ge in E.
+    intros H. exists (Z.to_nat i). split; [lia|exact H].
+  Qed.
+
+  Lemma pos_of_node (x : node) :
+    shape_ok x -> forall id y i kv,
+    find_node id x = Some y -> zget (nkvs y) i = Some kv ->
+    exists l1 l2, inorder_pos x = l1 ++ (id, i, kv) :: l2.
+  Proof.
+    induction x as [ix kvs cs IH] using node_ind'. intros Hs id y i kv Hf Hz.
+    apply shape_ok_inv in Hs as Hs'. destruct Hs' as (Hne & Hcs & Hall).
+    simpl in Hf. destruct (ix =? id)%nat eqn:E.
+    - apply Nat.eqb_eq in E. subst id. injection Hf as <-. simpl in Hz.
+      apply zget_nat in Hz. destruct Hz as (n & -> & Hn).
+      destruct cs as [|c0 cs0].
+      + simpl. rewrite (own_pos_at ix kvs n kv Hn). eauto.
+      + destruct Hcs as [Hcs|Hcs]; [discriminate|].
+        assert (Hlt : (n < length kvs)%nat) by (apply nth_error_Some; congruence).
+        destruct (nth_error (c0 :: cs0) n) as [cj|] eqn:Hcj.
+        2:{ apply nth_error_None in Hcj. lia. }
+        rewrite (inorder_pos_sep ix kvs (c0 :: cs0) n kv cj); eauto. discriminate.
+    - apply first_some_i_some in Hf. destruct Hf as (j & c & Hj & Hfc). simpl in Hfc.
+      destruct Hcs as [->|Hlen]; [destruct j; discriminate|].
+      rewrite Forall_forall in IH, Hall.
+      destruct (IH c (nth_error_In _ _ Hj) (Hall c (nth_error_In _ _ Hj)) id y i kv Hfc Hz)
+        as (l1 & l2 & Hdec).
+      rewrite (inorder_pos_child ix kvs cs j c Hlen Hj), Hdec.
+      exists (ipre j (map inorder_pos cs) (own_pos ix 0 kvs) ++ l1),
+             (l2 ++ ipost j (map inorder_pos cs) (own_pos ix 0 kvs)).
+      rewrite <- !app_assoc. reflexivity.
+  Qed.
+
+  (* ---------------- the tree invariant used by the cursor proofs ---------------- *)
+
+  Record tree_ok (t : btree) : Prop := mk_tree_ok {
+    tk_root : root_ok (root t);
+    tk_ids : NoDup (ids (root t));
+    tk_sorted : ksorted (inorder (root t))
+  }.
+
+  Lemma root_empty_pos (x : node) : nkvs x = [] -> ncs x = [] -> inorder_pos x = [].
+  Proof. destruct x as [id kvs cs]. simpl. intros -> ->. reflexivity. Qed.
+
+  Lemma root_ok_cases (x : node) :
+    root_ok x -> (shape_ok x /\ node_n K V x <> 0) \/ (inorder_pos x = [] /\ node_n K V x = 0).
+  Proof.
+    intros [Hs|[Hk Hc]].
+    - left. split; auto. destruct x as [id kvs cs]. apply shape_ok_inv in Hs.
+      destruct Hs as (Hne & _). unfold node_n, zlen. simpl. destruct kvs; [congruence|simpl; lia].
+    - right. split; [apply root_empty_pos; auto|]. unfold node_n. rewrite Hk. reflexivity.
+  Qed.
+
+  (* the cursor is parked on the head of l (with generation g), or off the edge if l is empty *)
+  Definition parked_hd (c : cursor) (g : Z) (l : list pos) : Prop :=
+    match l with
+    | p :: _ => c = cur_at p g
+    | [] => curr c = None
+    end.
+
+  (* a position of the list is a valid cursor position; Next/Prev from it *)
+  Lemma pos_step (t : btree) (c : cursor) l1 id i kv l2 :
+    tree_ok t -> inorder_pos (root t) = l1 ++ (id, i, kv) :: l2 ->
+    curr c = Some id -> ci c = i ->
+    (exists y, find_node id (root t) = Some y /\ zget (nkvs y) i = Some kv)
+    /\ (exists c', next_body K V t c = Ok c' /\ parked_hd c' (cgen c) l2)
+    /\ (exists c', prev_body K V t c = Ok c' /\ parked_hd c' (cgen c) (rev l1)).
+  Proof.
+    intros [Hroot Hnd _] Hdec Hc Hi.
+    destruct (root_ok_cases _ Hroot) as [[Hs _]|[He _]].
+    2:{ rewrite He in Hdec. destruct l1; discriminate. }
+    destruct (next_in_subtree (root t) Hs Hnd [] c l1 id i kv l2 Hdec Hc Hi)
+      as (y & q & Hf & Hp & Hz & Hn1 & Hn2).
+    destruct (prev_in_subtree (root t) Hs Hnd [] c l1 id i kv l2 Hdec Hc Hi)
+      as (y' & q' & Hf' & Hp' & _ & Hp1 & Hp2).
+    rewrite Hf in Hf'. injection Hf' as <-. rewrite Hp in Hp'. injection Hp' as <-.
+    rewrite app_nil_r in *.
+    split; [eauto|]. split.
+    - rewrite (next_body_nb t c id y q Hc Hf Hp).
+      destruct l2 as [|p' l2'].
+      + destruct (Hn2 eq_refl) as (c1 & Hg & ->). simpl. eexists. split; [reflexivity|]. reflexivity.
+      + rewrite (Hn1 p' l2' eq_refl). eexists. split; [reflexivity|]. reflexivity.
+    - rewrite (prev_body_pb t c id y q Hc Hf Hp).
+      destruct (snoc_cases l1) as [->|(l1' & p' & ->)].
+      + destruct (Hp2 eq_refl) as (c1 & Hg & ->). simpl. eexists. split; [reflexivity|]. reflexivity.
+      + rewrite (Hp1 p' l1' eq_refl). rewrite rev_unit. eexists. split; [reflexivity|]. reflexivity.
+  Qed.
+
+  Lemma lost_fresh (t : btree) (c : cursor) : cgen c = gen t -> lost K V cmp t c = Ok false.
+  Proof. intros H. unfold lost. rewrite H, Z.eqb_refl. reflexivity. Qed.
+
+  Lemma lost_nil (t : btree) (c : cursor) : curr c = None -> lost K V cmp t c = Ok false.
+  Proof. intros H. unfold lost. rewrite H. destruct (cgen c =? gen t); reflexivity. Qed.
+
+  (* ---------------- seek ---------------- *)
+
+  Lemma seek_spec (t : btree) (c : cursor) k :
+    tree_ok t ->
+    (inorder_pos (root t) = [] /\ seek K V cmp t c k = Ok (mkCursor None 0 (ck c) (cgen c), false))
+    \/ (exists l1 p l2, inorder_pos (root t) = l1 ++ p :: l2
+          /\ Forall (plt k) l1 /\ Forall (pgt k) l2
+          /\ seek K V cmp t c k = Ok (cur_at p (gen t), true)).
+  Proof.
+    intros [Hroot Hnd Hsort]. unfold seek, find.
+    destruct (root_ok_cases _ Hroot) as [[Hs Hn]|[He Hn]].
+    - right. apply Z.eqb_neq in Hn. rewrite Hn.
+      destruct (find_in K V cmp (root t) k) as [[y i] found] eqn:Hf.
+      apply psorted_inorder in Hsort.
+      destruct (find_in_spec (root t) k Hs Hsort y i found Hf)
+        as (l1 & kv & l2 & Hdec & Hz & Hl1 & Hl2 & _).
+      exists l1, (nid y, i, kv), l2. repeat split; auto.
+      unfold key_at. rewrite Hz. reflexivity.
+    - left. split; auto. rewrite Hn. reflexivity.
+  Qed.
+
+  Lemma plt_ple k p : plt k p -> ple k p.
+  Proof. unfold plt, ple. congruence. Qed.
+  Lemma pgt_pge k p : pgt k p -> pge k p.
+  Proof. unfold pgt, pge. congruence. Qed.
+
+  Lemma cursor_next1_fresh (t : btree) (c : cursor) :
+    cgen c = gen t -> cursor_next1 K V cmp t c = next_body K V t c.
+  Proof. intros H. unfold cursor_next1, next_with. rewrite (lost_fresh t c H). reflexivity. Qed.
+
+  Lemma cursor_prev1_fresh (t : btree) (c : cursor) :
+    cgen c = gen t -> cursor_prev1 K V cmp t c = prev_body K V t c.
+  Proof. intros H. unfold cursor_prev1, prev_with. rewrite (lost_fresh t c H). reflexivity. Qed.
+
+  (* the four seeks, as a split of the position list *)
+
+  (* SeekFirstGreaterOrEqual: parked on the first position with key >= k *)
+  Lemma sfge_spec (t : btree) (c : cursor) k :
+    tree_ok t ->
+    exists c' P1 P2,
+      seek_first_greater_or_equal K V cmp t c k = Ok c'
+      /\ inorder_pos (root t) = P1 ++ P2 /\ Forall (plt k) P1 /\ Forall (pge k) P2
+      /\ parked_hd c' (gen t) P2.
+  Proof.
+    intros Hok. unfold seek_first_greater_or_equal.
+    destruct (seek_spec t c k Hok) as [[He ->]|(l1 & p & l2 & Hdec & Hl1 & Hl2 & ->)]; simpl.
+    - exists (mkCursor None 0 (ck c) (cgen c)), [], []. rewrite He. repeat split; auto.
+    - destruct p as [[id i] kv].
+      destruct (pos_step t (cur_at (id, i, kv) (gen t)) l1 id i kv l2 Hok Hdec eq_refl eq_refl)
+        as (_ & (c' & Hn & Hp) & _).
+      simpl.
+      destruct (cmp k (fst kv)) eqn:E; simpl.
+      + exists (cur_at (id, i, kv) (gen t)), l1, ((id, i, kv) :: l2). repeat split; auto.
+        constructor; [unfold pge, pkey; simpl; congruence|]. eapply Forall_impl; [apply pgt_pge|exact Hl2].
+      + exists (cur_at (id, i, kv) (gen t)), l1, ((id, i, kv) :: l2). repeat split; auto.
+        constructor; [unfold pge, pkey; simpl; congruence|]. eapply Forall_impl; [apply pgt_pge|exact Hl2].
+      + rewrite cursor_next1_fresh by reflexivity.
+        exists c', (l1 ++ [(id, i, kv)]), l2. rewrite <- app_assoc. repeat split; auto.
+        * apply Forall_app. split; auto. constructor; [|constructor].
+          unfold plt, pkey. simpl in *. apply (c_gt_lt cmp laws). exact E.
+        * eapply Forall_impl; [apply pgt_pge|exact Hl2].
+  Qed.
+
+  (* SeekFirstGreater: parked on the first position with key > k *)
+  Lemma sfg_spec (t : btree) (c : cursor) k :
+    tree_ok t ->
+    exists c' P1 P2,
+      seek_first_greater K V cmp t c k = Ok c'
+      /\ inorder_pos (root t) = P1 ++ P2 /\ Forall (ple k) P1 /\ Forall (pgt k) P2
+      /\ parked_hd c' (gen t) P2.
+  Proof.
+    intros Hok. unfold seek_first_greater.
+    destruct (seek_spec t c k Hok) as [[He ->]|(l1 & p & l2 & Hdec & Hl1 & Hl2 & ->)]; simpl.
+    - exists (mkCursor None 0 (ck c) (cgen c)), [], []. rewrite He. repeat split; auto.
+    - assert (Hl1' : Forall (ple k) l1) by (eapply Forall_impl; [apply plt_ple|exact Hl1]).
+      destruct p as [[id i] kv].
+      destruct (pos_step t (cur_at (id, i, kv) (gen t)) l1 id i kv l2 Hok Hdec eq_refl eq_refl)
+        as (_ & (c' & Hn & Hp) & _).
+      simpl.
+      destruct (cmp k (fst kv)) eqn:E; simpl.
+      + rewrite cursor_next1_fresh by reflexivity.
+        exists c', (l1 ++ [(id, i, kv)]), l2. rewrite <- app_assoc. repeat split; auto.
+        apply Forall_app. split; auto. constructor; [|constructor].
+        unfold ple, pkey. simpl in *. rewrite (c_eq_sym cmp laws _ _ E). congruence.
+      + exists (cur_at (id, i, kv) (gen t)), l1, ((id, i, kv) :: l2). repeat split; auto.
+      + rewrite cursor_next1_fresh by reflexivity.
+        exists c', (l1 ++ [(id, i, kv)]), l2. rewrite <- app_assoc. repeat split; auto.
+        apply Forall_app. split; auto. constructor; [|constructor].
+        unfold ple, pkey. simpl in *. apply (c_gt_lt cmp laws) in E. congruence.
+  Qed.
+
+  (* SeekLastLessOrEqual: parked on the last position with key <= k *)
+  Lemma slle_spec (t : btree) (c : cursor) k :
+    tree_ok t ->
+    exists c' P1 P2,
+      seek_last_less_or_equal K V cmp t c k = Ok c'
+      /\ inorder_pos (root t) = P1 ++ P2 /\ Forall (ple k) P1 /\ Forall (pgt k) P2
+      /\ parked_hd c' (gen t) (rev P1).
+  Proof.
+    intros Hok. unfold seek_last_less_or_equal.
+    destruct (seek_spec t c k Hok) as [[He ->]|(l1 & p & l2 & Hdec & Hl1 & Hl2 & ->)]; simpl.
+    - exists (mkCursor None 0 (ck c) (cgen c)), [], []. rewrite He. repeat split; auto.
+    - assert (Hl1' : Forall (ple k) l1) by (eapply Forall_impl; [apply plt_ple|exact Hl1]).
+      destruct p as [[id i] kv].
+      destruct (pos_step t (cur_at (id, i, kv) (gen t)) l1 id i kv l2 Hok Hdec eq_refl eq_refl)
+        as (_ & _ & (c' & Hn & Hp)).
+      simpl.
+      destruct (cmp k (fst kv)) eqn:E; simpl.
+      + exists (cur_at (id, i, kv) (gen t)), (l1 ++ [(id, i, kv)]), l2.
+        rewrite <- app_assoc, rev_unit. repeat split; auto.
+        apply Forall_app. split; auto. constructor; [|constructor].
+        unfold ple, pkey. simpl in *. rewrite (c_eq_sym cmp laws _ _ E). congruence.
+      + rewrite cursor_prev1_fresh by reflexivity.
+        exists c', l1, ((id, i, kv) :: l2). repeat split; auto.
+      + exists (cur_at (id, i, kv) (gen t)), (l1 ++ [(id, i, kv)]), l2.
+        rewrite <- app_assoc, rev_unit. repeat split; auto.
+        apply Forall_app. split; auto. constructor; [|constructor].
+        unfold ple, pkey. simpl in *. apply (c_gt_lt cmp laws) in E. congruence.
+  Qed.
+
+  (* SeekLastLess: parked on the last position with key < k *)
+  Lemma sll_spec (t : btree) (c : cursor) k :
+    tree_ok t ->
+    exists c' P1 P2,
+      seek_last_less K V cmp t c k = Ok c'
+      /\ inorder_pos (root t) = P1 ++ P2 /\ Forall (plt k) P1 /\ Forall (pge k) P2
+      /\ parked_hd c' (gen t) (rev P1).
+  Proof.
+    intros Hok. unfold seek_last_less.
+    destruct (seek_spec t c k Hok) as [[He ->]|(l1 & p & l2 & Hdec & Hl1 & Hl2 & ->)]; simpl.
+    - exists (mkCursor None 0 (ck c) (cgen c)), [], []. rewrite He. repeat split; auto.
+    - assert (Hl2' : Forall (pge k) l2) by (eapply Forall_impl; [apply pgt_pge|exact Hl2]).
+      destruct p as [[id i] kv].
+      destruct (pos_step t (cur_at (id, i, kv) (gen t)) l1 id i kv l2 Hok Hdec eq_refl eq_refl)
+        as (_ & _ & (c' & Hn & Hp)).
+      simpl.
+      destruct (cmp k (fst kv)) eqn:E; simpl.
+      + rewrite cursor_prev1_fresh by reflexivity.
+        exists c', l1, ((id, i, kv) :: l2). repeat split; auto.
+        constructor; auto. unfold pge, pkey. simpl in *. congruence.
+      + rewrite cursor_prev1_fresh by reflexivity.
+        exists c', l1, ((id, i, kv) :: l2). repeat split; auto.
+        constructor; auto. unfold pge, pkey. simpl in *. congruence.
+      + exists (cur_at (id, i, kv) (gen t)), (l1 ++ [(id, i, kv)]), l2.
+        rewrite <- app_assoc, rev_unit. repeat split; auto.
+        apply Forall_app. split; auto. constructor; [|constructor].
+        unfold plt, pkey. simpl in *. apply (c_gt_lt cmp laws). exact E.
+  Qed.
+
+  Lemma seek_first_spec (t : btree) (c : cursor) :
+    tree_ok t ->
+    exists c', seek_first K V t c = Ok c' /\ parked_hd c' (gen t) (inorder_pos (root t)).
+  Proof.
+    intros [Hroot _ _]. unfold seek_first.
+    destruct (root_ok_cases _ Hroot) as [[Hs Hn]|[He Hn]].
+    - apply Z.eqb_neq in Hn. rewrite Hn.
+      destruct (inorder_pos_head (root t) Hs) as (kv & rest & restp & Hk & _ & Hp).
+      change 0 with (Z.of_nat 0).
+      rewrite (key_at_nat (leftmost_leaf (root t)) 0 kv); [|rewrite Hk; reflexivity].
+      simpl. eexists. split; [reflexivity|]. rewrite Hp. reflexivity.
+    - rewrite Hn. simpl. eexists. split; [reflexivity|]. rewrite He. reflexivity.
+  Qed.
+
+  Lemma seek_last_spec (t : btree) (c : cursor) :
+    tree_ok t ->
+    exists c', seek_last K V t c = Ok c' /\ parked_hd c' (gen t) (rev (inorder_pos (root t))).
+  Proof.
+    intros [Hroot _ _]. unfold seek_last.
+    destruct (root_ok_cases _ Hroot) as [[Hs Hn]|[He Hn]].
+    - apply Z.eqb_neq in Hn. rewrite Hn.
+      destruct (inorder_pos_last (root t) Hs) as (kv & front & frontp & Hk & _ & Hp).
+      unfold node_n. rewrite Hk, zlen_app.
+      replace (zlen front + zlen [kv] - 1) with (Z.of_nat (length front))
+        by (unfold zlen; simpl; lia).
+      rewrite (key_at_nat (rightmost_leaf (root t)) (length front) kv).
+      2:{ rewrite Hk. rewrite nth_error_app2 by lia. rewrite Nat.sub_diag. reflexivity. }
+      simpl. eexists. split; [reflexivity|]. rewrite Hp, rev_unit. reflexivity.
+    - rewrite Hn. simpl. eexists. split; [reflexivity|]. rewrite He. reflexivity.
+  Qed.
+
 End Seek.
